@@ -16,7 +16,7 @@ for d in sorted(glob.glob(os.path.join(V, "seeded", "*"))):
         what = what[:167].rsplit(" ", 1)[0] + " …"
     files = ",".join(os.path.basename(f) for f in meta.get("files_changed", []))
     ok = "yes" if res.get("suite_passes_with_patch") else ("?" if "suite_passes_with_patch" not in res else "NO")
-    demo = "%s / %s" % (res.get("demo_fails_with_patch", "?"), "passes" if res.get("demo_passes_without_patch") else "?")
+    demo = "%s / %s" % (res.get("demo_fails_with_patch", "?"), "passes" if res.get("demo_passes_without_patch") else ("fails (see note)" if res.get("demo_passes_without_patch") is False else "?"))
     caught = [c.replace("/quick", "") for c in res.get("caught_by", [])]
     own = meta["property"]
     if own in caught:
